@@ -156,11 +156,19 @@ Definition quote_literal (lex : str) (lang dt : option str) : str :=
 Definition obj_text (o : obj) : str :=
   match o with ONode n => n3_node n | OLit lex lang dt => quote_literal lex lang dt end.
 
-(* _nt_row; None = URIRef.n3() raised *)
+(* _nt_row; None = URIRef.n3() raised (also for the datatype, which _quoteLiteral writes with .n3()) *)
 Definition node_ok (n : node) : bool := match n with Iri u => valid_uri u | Bnode _ => true end.
+Definition obj_ok (o : obj) : bool :=
+  match o with
+  | ONode n => node_ok n
+  | OLit _ lang dt => match truthy lang with
+                      | Some _ => true
+                      | None => match truthy dt with Some d => valid_uri d | None => true end
+                      end
+  end.
 Definition nt_row (t : triple) : option str :=
   let '(s, p, o) := t in
-  if node_ok s && valid_uri p && match o with ONode n => node_ok n | OLit _ _ _ => true end
+  if node_ok s && valid_uri p && obj_ok o
   then Some (n3_node s ++ [32] ++ [60] ++ p ++ [62] ++ [32] ++ obj_text o ++ [32; 46; 10])
   else None.
 
@@ -247,13 +255,9 @@ Definition scan_lang (s : str) : option (str * str) :=     (* after '@' *)
   | _ => let '(t, z) := lang_tail false r in Some (a ++ t, z)
   end.
 
-(* term._lang_tag_regex letters, then hyphen+alphanumerics groups, read as ''the whole string'' *)
+(* term._lang_tag_regex letters, then hyphen+alphanumerics groups, (\Z: the whole string) *)
 Definition valid_langtag (l : str) : bool :=
   match scan_lang l with Some (_, []) => true | _ => false end.
-(* what Python's `$` really accepts: also one trailing ''\n'' *)
-Definition py_valid_langtag (l : str) : bool :=
-  valid_langtag l || match rev l with c :: r => (c =? 10) && valid_langtag (rev r) | [] => false end.
-
 Inductive res (A : Type) := Err | Skip | Got (a : A).
 Arguments Err {A}. Arguments Skip {A}. Arguments Got {A} a.
 
@@ -323,12 +327,8 @@ Definition rd_object (s : str) : option (obj * str) :=
   | [] => None
   end.
 
-(* r_wspaces = [ \t]+ *)
-Definition eat_wspaces (s : str) : option str :=
-  match s with
-  | c :: r => if is_sp c then Some (drop_while is_sp r) else None
-  | [] => None
-  end.
+(* between the terms parseline eats r_wspace = [ \t]* (zero or more, since fix commit 4cbe7459) *)
+Definition eat_wspace (s : str) : str := drop_while is_sp s.
 
 (* r_tail: blanks, a dot, blanks, optionally # and anything but LF; then the line must be empty *)
 Definition tail_ok (s : str) : bool :=
@@ -350,27 +350,20 @@ Definition parseline (line : str) : res triple :=
     match rd_subject (c :: r0) with
     | None => Err
     | Some (s, l1) =>
-      match eat_wspaces l1 with
-      | None => Err
-      | Some l2 =>
-        match l2 with
-        | c2 :: _ =>
-          if c2 =? 60 then
-            match rd_uriref l2 with
+      let l2 := eat_wspace l1 in
+      match l2 with
+      | c2 :: _ =>
+        if c2 =? 60 then
+          match rd_uriref l2 with
+          | None => Err
+          | Some (p, l3) =>
+            match rd_object (eat_wspace l3) with
             | None => Err
-            | Some (p, l3) =>
-              match eat_wspaces l3 with
-              | None => Err
-              | Some l4 =>
-                match rd_object l4 with
-                | None => Err
-                | Some (o, l5) => if tail_ok l5 then Got (s, p, o) else Err
-                end
-              end
+            | Some (o, l5) => if tail_ok l5 then Got (s, p, o) else Err
             end
-          else Err
-        | [] => Err
-        end
+          end
+        else Err
+      | [] => Err
       end
     end
   end.
@@ -507,18 +500,20 @@ Fixpoint rep3 (s : str) : str :=                 (* s.replace('''''''', '\\''\\'
     end
   | [] => []
   end.
-(* if encoded[-1] == '''' and encoded[-2] != ''\\'': encoded = encoded[:-1] + '\\''' *)
+(* if encoded[-1] == DQ: encoded = encoded[:-1] + backslash DQ   (the code as repaired by the fix commit 13d00653:
+   the final quote is escaped first - after the backslashes have been doubled it is always bare - and the triple
+   quotes are looked for in the result) *)
 Definition patch_last (e : str) : str :=
   match rev e with
-  | l :: p :: _ => if (l =? 34) && negb (p =? 92) then removelast e ++ [92; 34] else e
-  | _ => e
+  | l :: _ => if l =? 34 then removelast e ++ [92; 34] else e
+  | [] => e
   end.
 
 Definition ttl_quote_encode (s : str) : str :=
   if mem 10 s then
-    let e1 := replace1 92 [92; 92] s in
-    let e2 := if contains3 s then rep3 e1 else e1 in
-    [34; 34; 34] ++ replace1 13 [92; 114] (patch_last e2) ++ [34; 34; 34]
+    let e1 := patch_last (replace1 92 [92; 92] s) in
+    let e2 := if contains3 e1 then rep3 e1 else e1 in
+    [34; 34; 34] ++ replace1 13 [92; 114] e2 ++ [34; 34; 34]
   else
     [34] ++ replace1 13 [92; 114] (replace1 34 [92; 34] (replace1 92 [92; 92] (replace1 10 [92; 110] s))) ++ [34].
 
